@@ -99,6 +99,13 @@ def single (n : Nat) : Nat → List Nat → Leaf → Ctx
   | k, [], l => (List.range n).map (fun i => if i = k then some (.leaf l) else none)
   | k, k' :: ks, l => (List.range n).map (fun i => if i = k then some (.dict (single n k' ks l)) else none)
 
+/-- `str_to_dict("k.k1.k2…", value)` for ANY value — a scalar, or a dictionary given at once
+(`SetContext("data", {"detector": "far"})`): the value sits below the nested one-key dictionaries as it is
+(`nest_list`, functions.py 463-475); `single n k ks l = singleV n k ks (.leaf l)` (`single_eq_singleV`) -/
+def singleV (n : Nat) : Nat → List Nat → V → Ctx
+  | k, [], v => (List.range n).map (fun i => if i = k then some v else none)
+  | k, k' :: ks, v => (List.range n).map (fun i => if i = k then some (.dict (singleV n k' ks v)) else none)
+
 /-- `get_recursively(d, keys)` without default (functions.py 323-338) for a list of keys (a dotted string is split
 and its empty components dropped by the caller): `error k` = `LenaKeyError("nested dict/key k not found")` -/
 def getRec : Ctx → List Nat → Except Nat V
@@ -157,10 +164,12 @@ def fmt (t : Tpl) (d : Ctx) : Except Nat Leaf :=
     | some s => .ok (.str s)
     | none => .ok .bad
 
-/-- the value of a `SetContext`: a constant, or a formatting string (`isinstance(value, str) and '{' in value`) -/
+/-- the value of a `SetContext`: a scalar constant, a formatting string (`isinstance(value, str) and '{' in value`),
+or a dictionary constant (a subcontext given at once; it is not a `str`, so it is never formatted) -/
 inductive SVal where
   | const (l : Leaf)
   | tpl (t : Tpl)
+  | dictv (d : Ctx)
   deriving Repr
 
 /-- `format_update_with(key, value, d)` (functions.py 215-239) returning the new `d`; `key = k.ks` -/
@@ -171,6 +180,9 @@ def fmtUpdate (n : Nat) (k : Nat) (ks : List Nat) (v : SVal) (d : Ctx) : Except 
     match fmt t d with
     | .error e => .error e
     | .ok l => .ok (updL d (single n k ks l))
+  -- a dictionary value is MERGED into what `d` holds below the key (`update_recursively` recurses into
+  -- `other[key]` whenever it is a dictionary, functions.py 654-663); it replaces only a scalar
+  | .dictv x => .ok (updL d (singleV n k ks (.dict x)))
 
 /-! ## programs -/
 
@@ -972,6 +984,25 @@ def St.namesOK : St → Bool
 def namesOKL : List St → Bool
   | [] => true
   | s :: ss => s.namesOK && namesOKL ss
+end
+
+/-! ## dictionary constants of a program are dictionaries over the case's alphabet -/
+
+/-- a dictionary value of a `SetContext` has `n` slots in every dictionary at every depth -/
+def SVal.wf (n : Nat) : SVal → Bool
+  | .dictv d => wfB n (Val.dict d)
+  | _ => true
+
+mutual
+/-- every dictionary constant of the program is well formed (the driver builds them so; evaluated on every case) -/
+def Tree.valsWF (n : Nat) : Tree → Bool
+  | .leaf (.set _ _ v) => v.wf n
+  | .leaf _ => true
+  | .seq _ cs => valsWFL n cs
+  | .split bs => valsWFL n bs
+def valsWFL (n : Nat) : List Tree → Bool
+  | [] => true
+  | t :: ts => t.valsWF n && valsWFL n ts
 end
 
 /-- `top._set_context(c)` for the contexts of `cs` in turn: the objects afterwards -/
